@@ -20,6 +20,8 @@ func (h *vpRecHash) BlockSize() int              { return 64 }
 
 func vpNewRecHash() hash.Hash { return &vpRecHash{} }
 
+type hashHash = hash.Hash
+
 // environment model: os.Getenv is redirected to vpGetenvModel under gosym.
 var vpEnvModel = map[string]string{}
 
@@ -69,3 +71,16 @@ func vpStrs(name string, maxN, maxLen int) []string {
 }
 
 func osGetenv(k string) string { return os.Getenv(k) }
+
+// vpRecHash20: like vpRecHash but with a fixed 20-byte digest (the hash record
+// layout of incrementality.go needs fixed-size hashes): Sum is a collision-free
+// symbolic digest of the stream.
+type vpRecHash20 struct{ buf []byte }
+
+func (h *vpRecHash20) Write(p []byte) (int, error) { h.buf = append(h.buf, p...); return len(p), nil }
+func (h *vpRecHash20) Sum(b []byte) []byte         { return append(b, vpInjectiveDigest(h.buf, 20)...) }
+func (h *vpRecHash20) Reset()                      { h.buf = nil }
+func (h *vpRecHash20) Size() int                   { return 20 }
+func (h *vpRecHash20) BlockSize() int              { return 64 }
+
+func vpNewRecHash20() hash.Hash { return &vpRecHash20{} }
